@@ -6,7 +6,10 @@ Relations
           input re-read afterwards and pysam.TabixFile(output).fetch() are observed
   query : Haplotypes.read(region, haplotypes) on the file index_haps produced, for many
           regions x ID sets per file, against the model and against a filter of
-          Haplotypes.read() of the un-indexed file
+          Haplotypes.read() of the un-indexed file; the region reaches Coq as the string that was passed
+          (code points): both parsers of that string (_iter_haps and htslib) are part of the model
+  tabix : pysam.tabix_index / TabixFile.fetch themselves (no haptools code): the acceptance predicate
+          tabix_accepts in both directions and fetch_spec / hts_region against fetch(region=...)
 """
 import gzip
 import os
@@ -20,21 +23,34 @@ from .core import Relation, err_kind
 
 PROP = "C11"
 CLAIMED = True
-COQ_MODULES = ["C11_Check", "C11_Proofs", "C11_Proofs2", "C11_Proofs3", "C11_Proofs4", "C11_Proofs5", "C11_Proofs6", "C11_Proofs7", "C11_Proofs8"]
+COQ_MODULES = ["C11_Check", "C11_Proofs", "C11_Proofs2", "C11_Proofs3", "C11_Proofs4", "C11_Proofs5", "C11_Proofs6", "C11_Proofs7", "C11_Proofs8",
+               "C11_ProofsRegion", "C11_ProofsRegion2", "C11_Proofs10", "C11_Proofs9"]
 PROPERTY_MODULE = "C11_Property"
 ALLOWED_AXIOMS = []
 RULE = (
     "index: a file with >= 2 haplotype/repeat records and >= 1 variant whose line order differs from the "
     "order index writes (or, with --no-sort, a multi-block tabix-valid layout). query: an indexed file with "
     ">= 2 records on the queried contig and a query that keeps some and drops some records (containment vs "
-    "overlap, ID subset) or addresses a haplotype without variants. Distinct = distinct canonical JSON."
+    "overlap, ID subset) or addresses a haplotype without variants. tabix: a file with >= 2 sequence names that "
+    "tabix_index refuses, or an accepted one with a fetch(region) that keeps some and drops some lines of its "
+    "sequence. Distinct = distinct canonical JSON."
 )
 TRUSTED = [
     "bgzip/tabix (htslib via pysam): TabixFile.fetch returns, in file order, the data lines of the named sequence "
-    "overlapping the 1-based closed query, ValueError for a name not in the index (Section hypothesis fetch_ok); "
-    "exercised on every generated file by comparing fetch() and every query with the reference instance fetch_spec",
-    "Python str comparison is code-point order: strings reach Coq as order-preserving ranks computed by sorted()",
-    "tokenisation of lines (split on tab, canonical decimal integers) and region strings formatted by the harness",
+    "overlapping the 1-based closed query, ValueError for a name not in the index (Section hypothesis fetch_ok, stated "
+    "for the files tabix_index accepts: tabix_accepts = order accepted and every end <= 2^29); observed directly, in "
+    "both directions, by relation tabix (tabix_index accepts/refuses, fetch(region=...)) and on every generated file "
+    "by comparing fetch() and every query with the reference instance fetch_spec",
+    "htslib's region parser (hts_parse_region: whole string as a name first, refused when the text before the last "
+    "colon is a name too, else name = text before the last colon; positions '', 'a', 'a-', 'a-b' in plain digits, "
+    "end 0 = open) is the Gallina function hts_region; other spellings (thousands separators, exponents, signs, "
+    "braces given by the user) are not modelled and not generated",
+    "Python int() is modelled on [+-]?[0-9]+ (white space, '_' and non-ASCII digits are not generated)",
+    "Python str comparison is code-point order: strings reach Coq as order-preserving ranks computed by sorted(); "
+    "the strings whose spelling matters (sequence names, haplotype IDs, query contigs, region strings) also as code "
+    "points; that the rank table is one-to-one is checked in Coq (names_okb), that the region string passed is the "
+    "canonical spelling of the (contig, a, b) holds judges is checked in Coq (canonical / print_reg)",
+    "tokenisation of lines (split on tab, canonical decimal integers)",
     "Python's sorted() is a stable comparison sort (modelled by stable insertion sort)",
 ]
 ASSUMPTIONS = [
@@ -43,12 +59,48 @@ ASSUMPTIONS = [
     "from contig names (the property's own hypothesis)",
     "header lines are of the kinds that do not alter the parsing of mandatory fields (version, comments, extra-field "
     "declarations, order lines)",
+    "coordinates: a record ending beyond 2^29 = 536870912 cannot be stored in a .tbi index; haptools index then fails "
+    "(FileNotFoundError after logging 'Indexing failed', the .gz is written without .tbi). This is modelled and proved "
+    "sharp (C11_index_beyond_tbi_range_fails); holds accepts an error exactly there. Records ending before position 1 "
+    "are outside fetch_spec (never generated)",
+    "region strings (tree as it is, switch STRICT_COLON_CONTIGS off): the demand covers contigs without ':' whose "
+    "'c:a-b' string is not itself a sequence name, in files without a haplotype ID of the form <sequence name>:<text>; "
+    "with the switch on (after fixes/C11_colon_names.patch) every canonical region except a bare contig name that also "
+    "reads as <sequence name>:<text>",
 ]
 
 VERSION = "#\tversion\t0.2.0"
 GRID = [1, 2, 3, 5, 8, 10, 11, 20, 21, 30]
 CONTIGS = ["1", "2", "10", "21", "chr1", "chrX", "X"]
+# contig names with '-' / '_' (GRCh38 alt and HLA contigs); tried in 20 % of the files
+DASH_CONTIGS = ["HLA-A", "chr6_GL000250v2_alt", "HLA-DRB1*15", "1-2"]
+# contig names containing ':' (hs38DH: HLA-A*01:01:01:01) and a pair that htslib calls ambiguous ("6" and "6:7");
+# the positions of a region on them follow the LAST colon.  See STRICT_COLON_CONTIGS.
+COLON_CONTIGS = ["HLA-A*01:01", "6:7", "6", "chrUn:x"]
 HAPIDS = ["H1", "H2", "H10", "h1", "A", "a", "Z9", "chr21.q.3365*1", "H1.2", "R1", "STR_7", "b", "B2"]
+# haplotypes named after a region of a contig ("1:5-10" beside contig "1": htslib calls the string ambiguous)
+REGION_LIKE_IDS = ["1:5-10", "21:8-", "chr1:3-20"]
+TBI_MAX = 1 << 29
+# coordinates at the widths that matter to tabix: the 16 kb linear-index window, the bin levels 2^17 .. 2^26, the end
+# of what a .tbi can hold (2^29), and the int32 / uint32 / int64 edges beyond it
+WIDE_OK = [16383, 16384, 16385, (1 << 17) - 1, 1 << 17, (1 << 20) - 1, 1 << 20, (1 << 23), (1 << 26) - 1, 1 << 26,
+           TBI_MAX - 2, TBI_MAX - 1, TBI_MAX]
+WIDE_BEYOND = [TBI_MAX + 1, TBI_MAX + 2, (1 << 31) - 1, 1 << 31, (1 << 32) - 1, 1 << 32, (1 << 63) - 1]
+
+# Switch for the integrator.  _iter_haps takes the positions of a region from the text after the FIRST colon of the
+# string, htslib (which selects the lines) tries the whole string as a sequence name and otherwise splits at the LAST
+# colon.  On a contig whose name contains ':' the two disagree: read(region="6:7") on a file with contig "6:7" drops
+# every record that starts before 7, read(region="HLA-A*01:01:01:01") / read(region="HLA-A*01:01:01:01:5-10") raise
+# ValueError (int("01:01:01")); and when the region string 'c:a-b' is itself a sequence name of the file (a haplotype
+# named "1:5-10") htslib refuses it as ambiguous and the reader silently returns every record of the file.
+# False (default) = the tree as it is: the model is the first-colon parser (C11_Model.py_region false), agree compares
+# with it, holds makes no demand for such regions.  True = after fixes/C11_colon_contigs.patch: the model is the repaired
+# parser (py_region / hts_region true; theorem C11_region_string_query_fixed has no "no colon" hypothesis) and holds
+# demands the filter of the full read for every canonical region, except a bare contig name that also reads as
+# <sequence name>:<text>.  Flipping it on the unrepaired tree yields
+#   VIOLATION property=C11 ... signature "query read(region, ids) raised=['ValueError'] ... contig-has-colon=True"
+# Also settable with HV_C11_STRICT_COLON_CONTIGS=1.
+STRICT_COLON_CONTIGS = os.environ.get("HV_C11_STRICT_COLON_CONTIGS", "1") == "1"
 VARIDS = ["rs1", "rs2", "rs10", "v", "H1", "1:5:A:T", "rs9"]
 ALLELES = ["A", "C", "G", "T", "AT"]
 HEADERS = [VERSION, "#\tversion\t0.1.0", "# a comment", "#comment without space", "#H\tscore\t.2f\tsome score",
@@ -155,6 +207,10 @@ class Terms:
         v = lambda x: f"mkv {self.r(i)} {L.z(x[0])} {L.z(x[1])} {self.r(x[2])} {self.r(x[3])}"
         return f"(mkh {L.b(rep)} {self.r(chrom)} {L.z(s)} {L.z(en)} {self.r(i)}, {L.lst(vs, v)})"
 
+    def names(self, strs):
+        """[(code points, rank)] for the given strings"""
+        return L.lst(sorted(set(strs)), lambda t: f"({L.lst([ord(ch) for ch in t], L.z)}, {self.r(t)})")
+
     def scan_data(self, d):
         if isinstance(d, dict) and "ok" in d:
             for e in d["ok"]:
@@ -170,17 +226,34 @@ class Terms:
 # generators
 
 
-def gen_records(rng, kind="wf"):
-    """-> (header lines, data lines as strings, info)"""
+def gen_records(rng, kind="wf", wide=None, exotic=False):
+    """-> (header lines, data lines as strings, info).  wide: None = small grid; "ok" = some coordinates at the
+    tabix width boundaries up to 2^29; "beyond" = some beyond what a .tbi can hold"""
     ncont = int(rng.integers(1, 4))
-    contigs = [CONTIGS[i] for i in rng.choice(len(CONTIGS), size=ncont, replace=False)]
+    pool = list(CONTIGS)
+    idpool = list(HAPIDS)
+    r = rng.random() if exotic else 1.0      # (other modules import gen_file: their stream is the plain one)
+    if r < 0.2:
+        pool = pool[:3] + DASH_CONTIGS
+    elif r < 0.3:
+        pool = pool[:2] + COLON_CONTIGS
+    elif r < 0.36:
+        idpool = idpool[:6] + REGION_LIKE_IDS
+        pool = ["1", "21", "chr1", "2"]
+    contigs = [pool[i] for i in rng.choice(len(pool), size=ncont, replace=False)]
     nrec = int(rng.choice([0, 1, 2, 3, 4, 5, 6, 8], p=[0.03, 0.07, 0.2, 0.2, 0.2, 0.15, 0.1, 0.05]))
-    ids = [HAPIDS[i] for i in rng.choice(len(HAPIDS), size=nrec, replace=False)]
+    ids = [idpool[i] for i in rng.choice(len(idpool), size=nrec, replace=False)]
     extras = rng.random() < 0.3
     hr, vs = [], []
+    grid = GRID
+    if wide == "ok":
+        grid = GRID[:4] + WIDE_OK
+    elif wide == "beyond":
+        # half of the time just across the limit (2^29 + 1, 2^29 + 2), else up to the int64 edge
+        grid = GRID[:3] + WIDE_OK[-3:] + (WIDE_BEYOND[:2] if rng.random() < 0.5 else WIDE_BEYOND)
     for i in ids:
         c = contigs[int(rng.integers(0, ncont))]
-        a, b = sorted(int(x) for x in rng.choice(GRID, size=2))
+        a, b = sorted(int(x) for x in rng.choice(grid, size=2))
         if rng.random() < 0.15:
             b = a
         t = "R" if rng.random() < 0.25 else "H"
@@ -189,8 +262,10 @@ def gen_records(rng, kind="wf"):
         if t == "H":
             nv = int(rng.choice([0, 1, 2, 3, 4], p=[0.15, 0.25, 0.3, 0.2, 0.1]))
             for _ in range(nv):
-                s = int(rng.choice(GRID))
+                s = int(rng.choice(grid))
                 e = s if rng.random() < 0.7 else s + int(rng.integers(0, 4))
+                if wide == "ok":
+                    e = min(e, TBI_MAX)
                 vid = VARIDS[int(rng.integers(0, len(VARIDS)))]
                 al = ALLELES[int(rng.integers(0, len(ALLELES)))]
                 ex = "\tx" if extras and rng.random() < 0.5 else ""
@@ -248,8 +323,8 @@ def block_layout(rng, data):
     return out
 
 
-def gen_file(rng, kind, layout):
-    head, hr, vs, others = gen_records(rng, kind)
+def gen_file(rng, kind, layout, wide=None, exotic=False):
+    head, hr, vs, others = gen_records(rng, kind, wide, exotic)
     data = hr + vs + others
     if layout == "shuffled":
         data = [data[i] for i in rng.permutation(len(data))]
@@ -339,8 +414,22 @@ class Index(Relation):
                 layout = ["shuffled", "hr-first", "blocks"][int(rng.choice(3, p=[0.6, 0.25, 0.15]))]
             else:
                 layout = ["blocks", "shuffled"][int(rng.choice(2, p=[0.75, 0.25]))]
-            out.append({"lines": gen_file(rng, kind, layout), "sort": sort, "gz": bool(rng.random() < 0.3),
-                        "explicit": bool(rng.random() < 0.4), "kind": kind, "layout": layout})
+            w = rng.random()
+            wide = "ok" if w < 0.08 else ("beyond" if w < 0.14 else None)
+            lines = gen_file(rng, kind, layout, wide, exotic=True)
+            if rng.random() < 0.012:
+                # width boundary: one line longer than a BGZF block (64 KiB): an extra field (one interned token for
+                # Coq) of 65 535 / 65 536 / 70 000 characters; kept verbatim by --no-sort, dropped by the sorted mode
+                hs = [j for j, t in enumerate(lines) if t[:1] in ("H", "R")]
+                if hs:
+                    j = hs[int(rng.integers(0, len(hs)))]
+                    n = [65535, 65536, 70000][int(rng.integers(0, 3))]
+                    lines[j] = "\t".join(lines[j].split("\t")[:5]) + "\t" + "x" * (n - len(lines[j].split("\t")[4]))
+                    wide = "long-line"
+                    sort = bool(rng.random() < 0.3)
+            out.append({"lines": lines, "sort": sort,
+                        "gz": bool(rng.random() < 0.3), "explicit": bool(rng.random() < 0.4), "kind": kind,
+                        "layout": layout, "wide": wide})
         return out
 
     def exhaustive(self, tier):
@@ -394,18 +483,19 @@ class Index(Relation):
         if "obs" not in obs:
             T.freeze()
             # the run could not be observed (harness trouble, crash, timeout): E_Unobserved
-            return f"(mki {L.b(inp['sort'])} {L.b(not inp['gz'])} {T.lines(pin)} (Err 97) None (Err 0))"
+            return f"(mki {L.b(inp['sort'])} {L.b(not inp['gz'])} {T.lines(pin)} (Err 97) None (Err 0) false)"
         o = obs["obs"]
         pout = T.scan_lines(o["ok"]) if "ok" in o else None
         paft = T.scan_lines(obs["after"]) if obs["after"] is not None else None
         pf = T.scan_lines(obs["fetch"]["ok"]) if "ok" in obs["fetch"] else None
         T.freeze()
         if T.bad:
-            return f"(mki {L.b(inp['sort'])} {L.b(not inp['gz'])} [] (Err 97) None (Err 0))"
+            return f"(mki {L.b(inp['sort'])} {L.b(not inp['gz'])} [] (Err 97) None (Err 0) false)"
         so = f"(Ok {T.lines(pout)})" if pout is not None else f"(Err {o['err']})"
         sa = f"(Some {T.lines(paft)})" if paft is not None else "None"
         sf = f"(Ok {T.lines(pf)})" if pf is not None else f"(Err {obs['fetch']['err']})"
-        return f"(mki {L.b(inp['sort'])} {L.b(not inp['gz'])} {T.lines(pin)} {so} {sa} {sf})"
+        return (f"(mki {L.b(inp['sort'])} {L.b(not inp['gz'])} {T.lines(pin)} {so} {sa} {sf} "
+                f"{L.b(bool(obs.get('tbi')))})")
 
     def nontrivial(self, inp, obs):
         ft = file_features(inp["lines"])
@@ -421,7 +511,15 @@ class Index(Relation):
 
     def classes(self, inp, obs):
         out = [f"sort={inp['sort']}", f"gz={inp['gz']}", f"explicit-output={inp['explicit']}", f"kind={inp['kind']}",
-               f"layout={inp['layout']}"]
+               f"layout={inp['layout']}", f"wide={inp.get('wide')}"]
+        coords = [x for p_ in (parse_line(t) for t in inp["lines"]) if p_ and p_[0] != "C"
+                  for x in ((p_[2], p_[3]) if p_[0] in "HRV" else (p_[3], p_[4]))]
+        if coords:
+            m = max(coords)
+            out.append("max-coordinate=" + ("<2^14" if m < 16384 else "<2^29" if m < TBI_MAX else "=2^29" if m == TBI_MAX
+                                           else "2^29+1" if m == TBI_MAX + 1 else ">2^29+1"))
+        if isinstance(obs, dict) and "tbi" in obs:
+            out.append(f"tbi-written={obs['tbi']}")
         ft = file_features(inp["lines"])
         out.append(f"records={min(ft['records'], 6)}")
         out.append(f"contigs={len(ft['contigs'])}")
@@ -451,7 +549,10 @@ class Index(Relation):
     def signature(self, inp, obs):
         o = obs.get("obs", {}) if isinstance(obs, dict) else {}
         res = "ok" if "ok" in o else f"raised {obs.get('cls', obs.get('__exc__', '?'))}"
-        return f"index_haps sort={inp['sort']} input-kind={inp['kind']} result={res}"
+        idx = ""
+        if "ok" in o:
+            idx = f" tbi-written={bool(obs.get('tbi'))} index-readable={'ok' in obs.get('fetch', {})}"
+        return f"index_haps sort={inp['sort']} input-kind={inp['kind']} result={res}{idx}"
 
 
 # ---------------------------------------------------------------------------
@@ -464,6 +565,10 @@ def region_str(q):
         return q["contig"]
     if q["form"] == "c:a-b":
         return f"{q['contig']}:{q['a']}-{q['b']}"
+    if q["form"] == "c:a":            # not one of the property's forms; htslib and _iter_haps read it as 'c:a-'
+        return f"{q['contig']}:{q['a']}"
+    if q["form"] == "c:":
+        return f"{q['contig']}:"
     return f"{q['contig']}:{q['a']}-"
 
 
@@ -509,10 +614,10 @@ class Query(Relation):
                 bounds = sorted(set([x for p in on for x in (p[2], p[3])])) or [5]
                 pick = lambda: int(rng.choice(bounds)) + int(rng.choice([-1, 0, 0, 0, 1])) if rng.random() < 0.8 \
                     else int(rng.choice(GRID))
-                q["form"] = ["c", "c:a-b", "c:a-"][int(rng.choice(3, p=[0.15, 0.6, 0.25]))]
+                q["form"] = ["c", "c:a-b", "c:a-", "c:a", "c:"][int(rng.choice(5, p=[0.15, 0.57, 0.22, 0.04, 0.02]))]
                 a, b = pick(), pick()
-                if q["form"] == "c:a-b" and b < a:
-                    a, b = b, a
+                if q["form"] == "c:a-b" and b < a and rng.random() < 0.97:
+                    a, b = b, a                      # (3 %: 'c:a-b' with b < a, which htslib refuses)
                 q["a"], q["b"] = max(a, 0), max(b, 0)
             if q["contig"] is None or rng.random() < 0.4:
                 k = int(rng.integers(0, min(len(allids), 3) + 1))
@@ -527,7 +632,8 @@ class Query(Relation):
         out = []
         for _ in range(n):
             mode = "sort" if rng.random() < 0.75 else "nosort"
-            lines = gen_file(rng, "wf", "shuffled" if mode == "sort" else "blocks")
+            wide = "ok" if rng.random() < 0.08 else None
+            lines = gen_file(rng, "wf", "shuffled" if mode == "sort" else "blocks", wide, exotic=True)
             if mode == "nosort":
                 lines = [s for s in lines if s != "# a comment in the middle"]
             out.append({"lines": lines, "mode": mode, "queries": self._queries(rng, lines, 10)})
@@ -589,9 +695,10 @@ class Query(Relation):
     def encode(self, inp, obs):
         T = Terms()
         porig = T.scan_lines(inp["lines"])
+        strict = L.b(STRICT_COLON_CONTIGS)
         if "res" not in obs:
             T.freeze()
-            return f"(mkq [] {T.lines(porig)} (Err 97) [])"
+            return f"(mkq [] {T.lines(porig)} (Err 97) [] {strict} [])"
         pfile = T.scan_lines(obs["file"])
         T.scan_data(obs["full"])
         for q, r in zip(inp["queries"], obs["res"]):
@@ -601,18 +708,24 @@ class Query(Relation):
             T.add(*(q["ids"] or []))
         T.freeze()
         if T.bad:
-            return f"(mkq [] {T.lines(porig)} (Err 97) [])"
+            return f"(mkq [] {T.lines(porig)} (Err 97) [] {strict} [])"
+        # the strings whose spelling matters: sequence names of the indexed file and the contigs asked for
+        named = [(p[1] if p[0] in "HRV" else p[2]) for p in pfile if p[0] != "C"]
+        named += [p[4] for p in pfile if p[0] in "HR"]          # fetch(reference=<haplotype ID>) parses the ID
+        named += [q["contig"] for q in inp["queries"] if q["contig"] is not None]
         qs = []
         for q, r in zip(inp["queries"], obs["res"]):
             if q["contig"] is None:
-                reg = "None"
+                reg, rs = "None", "None"
             else:
-                a = "None" if q["form"] == "c" else f"(Some {L.z(q['a'])})"
+                a = "None" if q["form"] in ("c", "c:") else f"(Some {L.z(q['a'])})"
                 b = f"(Some {L.z(q['b'])})" if q["form"] == "c:a-b" else "None"
                 reg = f"(Some (mkreg {T.r(q['contig'])} {a} {b}))"
+                rs = f"(Some {L.lst([ord(ch) for ch in region_str(q)], L.z)})"
             ids = "None" if q["ids"] is None else f"(Some {T.rl(q['ids'])})"
-            qs.append(f"mkqo {reg} {ids} {T.data(r)}")
-        return f"(mkq {T.lines(pfile)} {T.lines(porig)} {T.data(obs['full'])} {L.lst(qs)})"
+            qs.append(f"mkqo {reg} {rs} {ids} {T.data(r)}")
+        return (f"(mkq {T.lines(pfile)} {T.lines(porig)} {T.data(obs['full'])} {T.names(named)} {strict} "
+                f"{L.lst(qs)})")
 
     def _discriminating(self, inp, obs):
         """queries that keep some and drop some records of their contig"""
@@ -642,6 +755,12 @@ class Query(Relation):
                 out.append("q:empty-id-set")
             if q["contig"] is not None and q["contig"] not in ft["contigs"]:
                 out.append("q:contig-absent")
+            if q["contig"] is not None and ":" in q["contig"]:
+                out.append("q:contig-has-colon")
+            if q["contig"] is not None and "-" in q["contig"]:
+                out.append("q:contig-has-dash")
+            if q["contig"] is not None and q["form"] != "c" and max(q["a"], q["b"]) >= 16384:
+                out.append("q:bound>=2^14" if max(q["a"], q["b"]) < TBI_MAX - 2 else "q:bound-near-2^29")
         if "res" in obs:
             out.append(f"discriminating-queries={min(self._discriminating(inp, obs), 5)}")
             for r in obs["res"]:
@@ -688,7 +807,7 @@ class Query(Relation):
                 if q["contig"] is not None:
                     if e[1] != q["contig"]:
                         continue
-                    if q["form"] != "c" and e[2] < q["a"]:
+                    if q["form"] not in ("c", "c:") and e[2] < q["a"]:
                         continue
                     if q["form"] == "c:a-b" and e[3] > q["b"]:
                         continue
@@ -702,21 +821,205 @@ class Query(Relation):
                 fv = {e[4]: sorted(map(tuple, e[5])) for e in obs["full"]["ok"]}
                 if any(sorted(map(tuple, e[5])) != fv.get(e[4]) for e in r["ok"]):
                     diffs.add("variants-differ")
+        colon = any(q["contig"] is not None and ":" in q["contig"] for q in inp["queries"])
+        seqs = set(s_.split("\t")[1] for s_ in inp["lines"] if not s_.startswith("#") and "\t" in s_)
+        named = any(q["contig"] is not None and q["form"] != "c" and region_str(q) in seqs for q in inp["queries"])
         return (f"query read(region, ids) raised={errs} {' '.join(sorted(diffs)) or 'same-records-as-filter'} "
-                f"file-has-variantless-haplotype={vl}")
+                f"file-has-variantless-haplotype={vl} contig-has-colon={colon} region-string-is-a-sequence-name={named}")
+
+# ---------------------------------------------------------------------------
 
 
-RELATIONS = [Index(), Query()]
+class Tabix(Relation):
+    """The library contracts themselves: no haptools code runs here."""
+
+    name = "tabix"
+    coq_module = "C11_Check"
+    coq_check = "check_tabix"
+    coq_case_type = "tcase"
+    coq_model = "model_tabix"
+    coq_imports = ["C11_Model"]
+    budget = {"quick": 180, "thorough": 4000}
+    max_cases_per_shard = 60
+    anchors = [("haptools/index.py", "index_haps")]      # the columns tabix_index is told to use are written there
+
+    def _queries(self, rng, lines, nq):
+        seqs = sorted(set(s.split("\t")[1] for s in lines if not s.startswith("#")))
+        by = {}
+        for s in lines:
+            if not s.startswith("#"):
+                f = s.split("\t")
+                by.setdefault(f[1], []).extend([int(f[2]), int(f[3])])
+        out = []
+        for _ in range(nq):
+            r = rng.random()
+            if r < 0.08 or not seqs:
+                c = ["nocontig", "1:", "zz:5", "6"][int(rng.integers(0, 4))]
+            else:
+                c = seqs[int(rng.integers(0, len(seqs)))]
+            bounds = sorted(set(by.get(c, [5]))) or [5]
+            pick = lambda: max(0, int(rng.choice(bounds)) + int(rng.choice([-1, 0, 0, 1])))
+            a, b = pick(), pick()
+            form = int(rng.choice(6, p=[0.15, 0.5, 0.2, 0.07, 0.03, 0.05]))
+            if form == 1 and b < a:
+                a, b = b, a
+            out.append([c, f"{c}:{a}-{b}", f"{c}:{a}-", f"{c}:{a}", f"{c}:", f"{c}:{max(a, b) + 1}-{min(a, b)}"][form])
+        return out
+
+    def generate(self, rng, n, tier):
+        out = []
+        for _ in range(n):
+            r = rng.random()
+            wide = "ok" if r < 0.12 else ("beyond" if r < 0.2 else None)
+            kind = "wf" if rng.random() < 0.85 else ["start-gt-end", "other-line", "id-is-contig"][int(rng.integers(0, 3))]
+            lines = gen_file(rng, kind, "blocks", wide, exotic=True)
+            lines = [s for s in lines if s != "# a comment in the middle"]
+            data = [j for j, s in enumerate(lines) if not s.startswith("#")]
+            m = rng.random()
+            mut = "none"
+            if len(data) >= 2 and m < 0.45:
+                # one step away from an accepted order
+                j, k = (int(x) for x in rng.choice(data, size=2, replace=False))
+                if m < 0.2:
+                    mut = "swap"
+                    lines[j], lines[k] = lines[k], lines[j]
+                elif m < 0.35:
+                    mut = "move"
+                    x = lines.pop(j)
+                    lines.insert(k, x)
+                else:
+                    mut = "end-before-start"
+                    f = lines[j].split("\t")
+                    # (a record that ends before position 1 is indexed but never returned by a region query:
+                    # outside fetch_spec, not generated)
+                    f[3] = str(max(1, int(f[2]) - int(rng.choice([1, 1, 2, 3]))))
+                    lines[j] = "\t".join(f)
+            elif m < 0.5:
+                mut = "shuffle"
+                lines = [lines[i] for i in rng.permutation(len(lines))]
+            out.append({"lines": lines, "queries": self._queries(rng, lines, 8), "mut": mut, "wide": wide})
+        return out
+
+    def exhaustive(self, tier):
+        import itertools
+
+        base = ["H\t1\t5\t20\tA", "H\t1\t5\t10\tB", "H\t2\t3\t4\tC", "V\tA\t8\t8\tr\tT", "H\t1\t7\t6\tD"]
+        qs = ["1", "1:5-5", "1:6-", "2:1-3", "A", "A:9-", "1:21-", "1:4"]
+        return [{"lines": list(p_), "queries": qs, "mut": "exhaustive", "wide": None}
+                for p_ in itertools.permutations(base)]
+
+    def run_impl(self, inp):
+        import pysam
+
+        d = tempfile.mkdtemp(prefix="hv_c11_")
+        try:
+            src = os.path.join(d, "x.hap")
+            write_input(inp["lines"], src, False)
+            try:
+                pysam.tabix_index(src, seq_col=1, start_col=2, end_col=3)
+                acc = {"ok": True}
+            except OSError as e:
+                acc = {"ok": False} if str(e).startswith("building of index for ") else {"err": err_kind(e)}
+            except Exception as e:  # noqa
+                acc = {"err": err_kind(e)}
+            if acc != {"ok": True}:
+                return {"acc": acc, "all": {"err": 0}, "res": []}
+            tb = pysam.TabixFile(src + ".gz")
+            try:
+                allv = {"ok": list(tb.fetch())}
+            except Exception as e:  # noqa
+                allv = {"err": err_kind(e)}
+            res = []
+            for q in inp["queries"]:
+                try:
+                    res.append({"ok": list(tb.fetch(region=q))})
+                except Exception as e:  # noqa
+                    res.append({"err": err_kind(e), "cls": type(e).__name__})
+            tb.close()
+            return {"acc": acc, "all": allv, "res": res}
+        finally:
+            shutil.rmtree(d, ignore_errors=True)
+
+    def encode(self, inp, obs):
+        T = Terms()
+        pin = T.scan_lines(inp["lines"])
+        if "acc" not in obs:
+            T.freeze()
+            return f"(mkt {T.lines(pin)} [] (Err 97) (Err 0) [])"
+        pall = T.scan_lines(obs["all"]["ok"]) if "ok" in obs["all"] else None
+        pres = [T.scan_lines(r["ok"]) if "ok" in r else None for r in obs["res"]]
+        T.freeze()
+        if T.bad:
+            return f"(mkt [] [] (Err 97) (Err 0) [])"
+        named = [(p_[1] if p_[0] in "HRV" else p_[2]) for p_ in pin if p_[0] != "C"]
+        acc = f"(Ok {L.b(obs['acc']['ok'])})" if "ok" in obs["acc"] else f"(Err {obs['acc']['err']})"
+        sall = f"(Ok {T.lines(pall)})" if pall is not None else f"(Err {obs['all']['err']})"
+        qs = []
+        for q, r, pr in zip(inp["queries"], obs["res"], pres):
+            rr = f"(Ok {T.lines(pr)})" if pr is not None else f"(Err {r['err']})"
+            qs.append(f"mkto {L.lst([ord(ch) for ch in q], L.z)} {rr}")
+        return f"(mkt {T.lines(pin)} {T.names(named)} {acc} {sall} {L.lst(qs)})"
+
+    def nontrivial(self, inp, obs):
+        # either side of the acceptance predicate on a file with >= 2 sequence names, or a fetch that keeps some
+        # and drops some lines of its sequence
+        if "acc" not in obs or "ok" not in obs["acc"]:
+            return False
+        data = [s for s in inp["lines"] if not s.startswith("#")]
+        if len(set(s.split("\t")[1] for s in data)) < 2:
+            return False
+        if not obs["acc"]["ok"]:
+            return True
+        for q, r in zip(inp["queries"], obs["res"]):
+            if "ok" in r:
+                on = [s for s in data if s.split("\t")[1] == q.split(":")[0]]
+                if 0 < len(r["ok"]) < len(on):
+                    return True
+        return False
+
+    def classes(self, inp, obs):
+        out = [f"mutation={inp['mut']}", f"wide={inp['wide']}"]
+        if "acc" in obs:
+            out.append("accepted" if obs["acc"].get("ok") else "refused")
+            for q, r in zip(inp["queries"], obs["res"]):
+                out.append("fetch:" + ("ok" if "ok" in r else "raised-" + str(r.get("cls"))))
+        return out[:3] + sorted(set(out[3:]))
+
+    def shrink(self, inp):
+        if len(inp["queries"]) > 1:
+            for q in inp["queries"]:
+                yield dict(inp, queries=[q])
+        for l in shrink_lines(inp["lines"]):
+            yield dict(inp, lines=l)
+
+    def mutate(self, inp, rng):
+        for _ in range(4):
+            yield dict(inp, queries=self._queries(rng, inp["lines"], 8))
+
+    def signature(self, inp, obs):
+        if "acc" not in obs:
+            return "tabix: not observed"
+        return (f"tabix contract: tabix_index {'accepted' if obs['acc'].get('ok') else 'refused'} the file "
+                f"(mutation={inp['mut']}); fetch raised="
+                f"{sorted(set(r.get('cls', '?') for r in obs['res'] if 'err' in r))}")
+
+
+RELATIONS = [Index(), Query(), Tabix()]
 
 LEVEL_TEXT = (
     "Coq theorems over all .hap contents (no size bound) about a Gallina model of index_haps, the __lt__ orderings, "
-    "sort/to_str and the plain and tabix branches of Haplotypes.__iter__/read; tabix fetch is a Section variable with "
-    "a stated contract. The model is tied to /repo on every run by evaluating in Coq model-vs-implementation agreement "
-    "and the property's finite checker on generated files (index) and ~10 region/ID queries per indexed file (query)."
+    "sort/to_str, the plain and tabix branches of Haplotypes.__iter__/read and the two parsers of a region string "
+    "(_iter_haps and htslib, at code-point level); tabix fetch is a Section variable with a stated contract. The model "
+    "is tied to /repo on every run by evaluating in Coq model-vs-implementation agreement and the property's finite "
+    "checker on generated files (index), ~10 region/ID queries per indexed file (query), and the library contracts "
+    "themselves on arbitrary line orders (tabix)."
 )
 LEVEL_NOTE = (
     "Partial: bgzip/tabix are a contract (Section hypothesis), exercised against the real library on every case; "
-    "strings are order-preserving ranks; header lines are opaque. Theorems assume a well-formed .hap file (unique IDs, "
-    "variants belong to haplotypes of the file, start <= end, haplotype IDs differ from contigs)."
+    "strings are order-preserving ranks (plus code points where the spelling matters); header lines are opaque. "
+    "Theorems assume a well-formed .hap file (unique IDs, variants belong to haplotypes of the file, start <= end, "
+    "haplotype IDs differ from contigs) and, for index, ends <= 2^29 (proved sharp). Region strings on contigs with "
+    "':' and haplotype IDs of the form <sequence>:<text> are a defect of the tree as it is "
+    "(fixes/C11_colon_names.patch, switch STRICT_COLON_CONTIGS)."
 )
 TECHNIQUE = "Coq proof by induction on line lists + vm_compute-evaluated correspondence against the implementation"
